@@ -61,6 +61,19 @@ def shapes(tier, seed):
         for e in meprogs.ENGINES:
             ident.append((base, ("xfer", base, e)))
     out += [{"kind": "identity", "pairs": ident[i:i + 60]} for i in range(0, len(ident), 60)]
+    # the same for SQL-side trees that an earlier Processor.process returned: their materializations carry payloads (and may sit
+    # bare, without the engine's SELECT wrapper, below joins / chains); later factory calls must keep those very objects
+    K1, K2 = ("gt", meprogs.A, ("lit", "$k1")), ("lt", meprogs.A, ("lit", "$k2"))
+    Xs = ("xfer", Xl, "sq")
+    pid = []
+    for b in (("proc", ("mat", ("sel", Sl, K1), "ms")), ("proc", ("mat", ("xfer", ("sel", Xl, K1), "sq"), "mx")),
+              ("proc", ("join", ("mat", ("sel", Sl, K1), "ms"), Xs, None)), ("proc", ("chain", ("mat", ("sel", Sl, K1), "ms"), Xs))):
+        for n in (("join", b, Xs, None), ("join", Xs, b, None), ("join", b, ("leaf", "T"), K2), ("sel", b, K2), ("proj", b, ("a",)),
+                  ("dedup", b), ("sort", b, ((meprogs.A, True),)), ("slice", b, 0, 1), ("chain", b, b), ("chain", ("sel", Sl, K2), b),
+                  ("mat", b, "again"), ("xfer", b, "it1"), ("calc", b, "d", ("add", meprogs.A, meprogs.B)),
+                  ("sel", ("join", b, ("leaf", "T"), None), K2), ("join", ("dedup", b), Xs, None)):
+            pid.append((b, n))
+    out += [{"kind": "identity", "pairs": pid[i:i + 15], "payloads": True} for i in range(0, len(pid), 15)]
     # the same with explicitly named materializations after an equal-but-distinct twin tree has been built
     twins = [_named(p) for b, p in ident if "mat" in repr(p) and ("xfer" in repr(p) or p[-1])][::2]
     twins = [(p[1], p) for p in twins]
@@ -85,12 +98,15 @@ def shapes(tier, seed):
     return out
 
 
-def make_env(ctx, symbolic=True):
+def make_env(ctx, symbolic=True, rows=None):
     env = Env(symbolic=symbolic)
     for name, (eng, cols) in meprogs.LEAVES.items():
         tab = None
         if ctx is not None and name in ("X", "S"):
             tab = common.sym_table(ctx, name, cols, N, ordered=(eng != "sq"))
+        elif ctx is None and rows is not None and eng == "sq":
+            from ..sqlprogs import concrete_tab
+            tab = concrete_tab(rows.get(name, []), cols)  # "proc" nodes evaluate SQL-side materializations during replays
         add_abstract_leaf(env, name, cols, eng, tab)
     return env
 
@@ -249,6 +265,11 @@ def run_shape(shape, tier):
             if shape["kind"] == "identity":
                 p = identity_problem(before, rel, env)
                 obs.append(("locked nodes are identical objects", p is None, {"problem": p, "tree": str(rel)}))
+                if shape.get("payloads"):
+                    from lsst.daf.relation import Materialization
+                    lost = [n.name for nodes in locked_nodes(rel).values() for n in nodes
+                            if isinstance(n, Materialization) and n.payload is None and n.name in ("ms", "mx")]
+                    obs.append(("materializations of the processed input keep their payloads", not lost, {"lost": lost, "tree": str(rel)}))
                 if prog[0] != "join":  # a join may legitimately drop a join-identity operand
                     p3 = preserved_problem(before, rel)
                     obs.append(("locked nodes of the input stay in the tree", p3 is None, {"problem": p3, "tree": str(rel)}))
@@ -353,7 +374,7 @@ def run_twin_engines():
 def concrete_check(kind, base, prog, rows, bind):
     from lsst.daf.relation import ColumnError, EngineError, RelationalAlgebraError
 
-    env = make_env(None, symbolic=False)
+    env = make_env(None, symbolic=False, rows=rows)
     env.bind = dict(bind)
     memo = {}
     try:
@@ -373,6 +394,12 @@ def concrete_check(kind, base, prog, rows, bind):
             p3 = preserved_problem(before, rel)
             if p3:
                 return True, "locked-node-dropped", p3
+        if base is not None and base[0] == "proc":
+            from lsst.daf.relation import Materialization
+            lost = [n.name for nodes in locked_nodes(rel).values() for n in nodes
+                    if isinstance(n, Materialization) and n.payload is None and n.name in ("ms", "mx")]
+            if lost:
+                return True, "payload-lost", f"materializations {lost} of the processed input have no payload in {rel}"
         return False, "", None
     steps = [build(q, env, memo) for q in _prefixes(prog)]
     for prev, nxt in zip(steps, steps[1:]):
